@@ -109,6 +109,36 @@ VARIANTS = [
      "new": "peek_len = 2 * (4 + msg.offset)\n            header = data[PacketLayout.PHL_NAME:PacketLayout.PHL_NAME + peek_len]"},
     {"name": "P R3 whole body expanded for the peek", "file": DES, "expect": "silent",
      "old": "header = data[PacketLayout.PHL_NAME:16 + (msg.offset * 2)]", "new": "header = data[PacketLayout.PHL_NAME:]"},
+    # ------------------------------------------------------------------ R4 (flag <-> coding of the body)
+    {"name": "R4 compressed body used only when it is smaller", "file": SER, "expect": "C03.R4",
+     "old": "                msg_body = self.zero_code_compress(msg_body)\n",
+     "new": "                packed = self.zero_code_compress(msg_body)\n                if len(packed) < len(msg_body):\n"
+            "                    msg_body = packed\n"},
+    {"name": "R4 body compressed regardless of the flag", "file": SER, "expect": "C03.R4",
+     "old": "            if msg.zerocoded:\n                msg_body = self.zero_code_compress(msg_body)\n",
+     "new": "            msg_body = self.zero_code_compress(msg_body)\n"},
+    {"name": "R4 reader expands only bodies that look zero-coded", "file": DES, "expect": "C03.R4",
+     "old": "        if msg.zerocoded:\n            raw_body = self.zero_code_expand(raw_body)\n",
+     "new": "        if msg.zerocoded and b\"\\x00\" in raw_body:\n            raw_body = self.zero_code_expand(raw_body)\n"},
+    {"name": "P R4 compressed body kept in its own local", "expect": "silent", "edits": [
+        {"file": SER, "old": "            if msg.zerocoded:\n                msg_body = self.zero_code_compress(msg_body)\n            writer.write_bytes(msg_body)\n",
+         "new": "            if msg.zerocoded:\n                coded = self.zero_code_compress(msg_body)\n                wire_body = coded\n"
+                "            else:\n                wire_body = msg_body\n            writer.write_bytes(wire_body)\n"}]},
+    {"name": "P R4 compressed body written directly", "expect": "silent", "edits": [
+        {"file": SER, "old": "            if msg.zerocoded:\n                msg_body = self.zero_code_compress(msg_body)\n            writer.write_bytes(msg_body)\n",
+         "new": "            if msg.zerocoded:\n                writer.write_bytes(self.zero_code_compress(msg_body))\n"
+                "            else:\n                writer.write_bytes(msg_body)\n"}]},
+    # ------------------------------------------------------------------ interpreter robustness (helpers / objects)
+    {"name": "P R1 cap test extracted into a module-level helper", "expect": "silent", "edits": [
+        {"file": DES, "old": _CAP, "new": "            _refuse_oversized(decode_buf)\n"},
+        {"file": DES, "old": "class UDPMessageDeserializer:\n",
+         "new": "def _refuse_oversized(buf):\n    if len(buf) > 0x3000:\n        raise ValueError(\"Unreasonably large zerocoded message\")\n\n\n"
+                "class UDPMessageDeserializer:\n"}]},
+    {"name": "R1 extracted cap helper tests the wrong buffer", "expect": "C03.R1", "edits": [
+        {"file": DES, "old": _CAP, "new": "            _refuse_oversized(msg_buf)\n"},
+        {"file": DES, "old": "class UDPMessageDeserializer:\n",
+         "new": "def _refuse_oversized(buf):\n    if len(buf) > 0x3000:\n        raise ValueError(\"Unreasonably large zerocoded message\")\n\n\n"
+                "class UDPMessageDeserializer:\n"}]},
     # ------------------------------------------------------------------ documented limits
     {"name": "X decoder run arithmetic off by one (value-level)", "file": DES, "expect": "miss",
      "old": "zero_count = c - 1", "new": "zero_count = c"},
